@@ -123,7 +123,10 @@ def gen_script(rng, solvers=L.SOLVERS, nops=(3, 9), p_mid=0.5, allow_modes=False
     cfg.append(dict(op="SetObjective", cost=cost))
     if rng.random() < 0.6 and kind in ("DE", "DE2"):
         b = box or gen_box(rng, ndim)
-        cfg.append(dict(op="SetRandomInitialPoints", lo=b[0], hi=b[1]))
+        if rng.random() < 0.2:
+            cfg.append(dict(op="SetRandomInitialPoints", lo=None, hi=None))    # no limits given: the solver's defaults (+-1e3), whatever else is configured
+        else:
+            cfg.append(dict(op="SetRandomInitialPoints", lo=b[0], hi=b[1]))
     else:
         cfg.append(dict(op="SetInitialPoints", x0=[grid(rng, -3, 3) for _ in range(ndim)]))
     sbox = box
@@ -172,7 +175,14 @@ def gen_script(rng, solvers=L.SOLVERS, nops=(3, 9), p_mid=0.5, allow_modes=False
                     inst = [o for o in ops if o["op"] == "SetStrictRanges" and o["lo"] is not None]
                     if inst and all(v not in (INF, -INF) for v in inst[-1]["lo"] + inst[-1]["hi"]):
                         cb = (inst[-1]["lo"], inst[-1]["hi"])
-                ops.append(dict(op="SetConstraints", cons=gen_cons(rng, ndim, cb, push_out)))
+                o_ = dict(op="SetConstraints", cons=gen_cons(rng, ndim, cb, push_out))
+                if kind != "POW" and rng.random() < 0.35 and not any(q["op"] == "SetStrictRanges" for q in ops):
+                    # installed through the keyword of the next Step: solver.Step(constraints=c) (one real call, two machine operations)
+                    o_["defer"] = True
+                    ops.append(o_)
+                    ops.append(dict(op="Step", cb=False))
+                else:
+                    ops.append(o_)
             elif m == "box":
                 last = [o for o in ops if o["op"] == "SetStrictRanges" and o["lo"] is not None]
                 if last and rng.random() < 0.35:
